@@ -17,7 +17,7 @@ def render_schema(schema, rng, fmt=None):
         decl = False
         if rng.random() < 0.2:
             decl = rng.choice([True, ["ID"], ["ID", "String"], ["Int", "Float", "Boolean"]])
-        text = render_sdl(schema, rng, extend=rng.random() < 0.3, comments=rng.random() < 0.3, multiline=rng.random() < 0.7, declare_builtins=decl)
+        text = render_sdl(schema, rng, extend=rng.random() < 0.3, comments=rng.random() < 0.3, multiline=rng.random() < 0.7, declare_builtins=decl, tags=rng.random() < 0.3)
         ext = rng.choice(["graphql", "graphql", "graphqls", "gql"])
     else:
         text = render_json(schema, wrapped=(fmt == "json-data"), builtins=rng.choice(["none", "scalars", "all"]),
